@@ -22,12 +22,57 @@ SCENARIOS = [  # name, element kinds
     ('hmap', 'nc'), ('hmm', 'nc'), ('tset', 'nc'), ('tsetf', 'nc'), ('tmap', 'nc'), ('tsmall', 'n'), ('tmergeb', 'n'), ('pool', 'n'), ('pool1', 'n'), ('pool2', 'n'), ('pool4', 'n'),
     ('dt', 'n'), ('svec', 'nc'), ('suset', 'n'), ('sset', 'n'), ('sumap', 'n'), ('summap', 'n'), ('smap', 'n'), ('smmap', 'n')]
 PART = {'arr': 1, 'arri': 1, 'arrr': 1, 'seg': 1, 'hset': 1, 'hseto': 1, 'hset1': 1, 'hsfirst': 1, 'hsfirsto': 1,
+        'trel': 2, 'trel0': 2, 'treld': 2, 'trelr': 2, 'tmrel': 2,
         'hmap': 2, 'hmm': 2, 'tset': 2, 'tsetf': 2, 'tmap': 2, 'tsmall': 2, 'tmergeb': 2, 'pool': 2, 'pool1': 2, 'pool2': 2, 'pool4': 2}
+
+
+# aimed family: ONE insertion into a TreeSet / TreeMap with TreeNode<4, 1, MemPoolParams<1>> (every node = one block of the memory manager) is run
+# with the injection armed for that insertion only; the parameter p is the index of the insertion (the p - 1 before it run unarmed).  EVERY fallible
+# step of every insertion that splits (>= 3 allocation requests: cascading splits, the height-increasing insertions among them) is enumerated -
+# never sampled; in the thorough tier every step of every insertion.  trel/trel0: ascending keys (pools with / without free-block cache),
+# treld: descending, trelr: scattered, tmrel: TreeMap ascending.  Height 3 is reached at p = 17, height 4 at p = 53 (ascending).
+AIMED = [('trel', 'nc'), ('trel0', 'nc'), ('treld', 'n'), ('trelr', 'n'), ('tmrel', 'nc')]
+AIMED_NAMES = tuple(a for a, _ in AIMED)
+AIMED_P_QUICK, AIMED_P_THOROUGH = 30, 70
+
+
+# coverage audit (round 7): configurations / operations / boundary values the histories above never produced (harness_audit.inc; parts 4, 5, 6).
+# (scenario, element kinds, p values quick, p values thorough).  Element kinds: ntm / cpo = kit elements with the kit::Hash FUNCTOR (slow hash: hash
+# code parts kept in the buckets), suffix .d = hash distribution kit::Dist d (1 constant, 2 low bits, 3 high bits, 5 mod 7); i64 = HashSet<int64_t> with
+# momo's HashCoder (FAST hash: the other variant of every bucket class, and the only way to get BucketOpen8); m64 = HashMap<int64_t, ElemNtm>.
+HB = ['hbL4', 'hbL1', 'hbLP', 'hbUn', 'hbL4o', 'hbO8', 'hbO2', 'hbN1', 'hb1']
+AUDIT = [(h, ['ntm', 'cpo', 'i64', 'm64', 'ntm.1', 'ntm.2', 'ntm.3', 'ntm.5'], [9], [5, 33]) for h in HB] + [
+    ('inlhs', ['ntm', 'cpo'], [9], [5, 33]), ('inlts', ['ntm', 'cpo'], [9, 40], [5, 33, 70]), ('hmminl', ['ntm'], [9], [5, 33]),
+    ('arrx', ['ntm', 'cpo'], [9], [5, 12, 33]), ('arrb', ['ntm'], [3, 9], [4, 5, 12, 33]), ('arrt', ['ntm'], [9], [5, 33]), ('arrs', ['ntm'], [9], [5, 33]),
+    ('segx', ['ntm'], [9], [5, 33, 70]), ('segc2', ['ntm', 'cpo'], [9], [5, 12, 33]), ('segs0', ['ntm'], [9, 40], [5, 33, 70]),
+    ('tmulti', ['ntm'], [9, 40], [5, 33, 70]), ('taud', ['ntm', 'cpo'], [9, 40], [5, 33, 70]), ('taud5', ['ntm'], [40], [12, 70]), ('ttriv', ['ntm'], [40], [12, 70]),
+    ('hmmbig', ['ntm', 'cpo'], [9], [5, 33]), ('palloc', ['ntm'], [9, 40], [5, 33, 70]), ('palloc1', ['ntm'], [9], [5, 33]), ('poolg', ['ntm'], [9], [5, 33]),
+    ('dt2', ['ntm'], [9], [5, 33]), ('stdmore', ['ntm'], [9], [5, 33])]
+AUDIT_NAMES = tuple(a[0] for a in AUDIT)
+for _h in HB:
+    PART[_h] = 4
+for _n in ('inlhs', 'inlts', 'hmminl', 'arrx', 'arrb', 'arrt', 'arrs', 'segx', 'segc2', 'segs0', 'tmulti', 'taud', 'taud5', 'ttriv', 'hmmbig', 'palloc', 'palloc1', 'poolg'):
+    PART[_n] = 5
+for _n in ('dt2', 'stdmore'):
+    PART[_n] = 6
+# fault SEQUENCES: kinds A / C / F = the k-th step of that kind fails and, once that failure has been caught, the 2nd next step of the same kind fails too
+DOUBLE_QUICK = ('arr', 'seg', 'hset', 'hseto', 'tset', 'hmm', 'dt', 'tmergeb', 'sset', 'taud', 'hbO8', 'segc2')
+COV_AGG = {}
+WIDENED = [False]     # set when a stage broke and the every-k search runs in the quick tier: the audit configurations keep their quick sampling then
+
+
+def pick_ks_small(ctx, steps, n):
+    if steps <= n:
+        return list(range(steps))
+    ks = {0, 1, steps - 1, steps - 2}
+    while len(ks) < n:
+        ks.add(ctx.rng.below(steps))
+    return sorted(ks)
 
 
 # stdish wrappers use the default HashSetSettings / TreeSetSettings with momo's debug self check (pvExtraCheck calls the functors again and asserts
 # if they throw): injected functor failures are meaningless there; they are exercised through the momo containers instead
-NO_FUNCTOR_FAILURES = ('suset', 'sumap', 'summap', 'sset', 'smap', 'smmap')
+NO_FUNCTOR_FAILURES = ('suset', 'sumap', 'summap', 'sset', 'smap', 'smmap', 'stdmore')
 
 
 def growcap(cap, mincap):       # ArraySettings<>::GrowCapacity(cap, mincap, add, linear=false) for cap <= 64 (input to the model only)
@@ -179,6 +224,10 @@ def round5_cases(ctx):
     for n in (1, 2, 3, 7, 16):
         for k in (-1, 0, 1):
             cases.append('migv %d %d' % (n, k))
+    # the insertion that takes a TreeNode<4, 1> tree from height 2 to 3, through TreeSet::Relocator: 8 allocations (4 nodes, the two segment
+    # arrays, mNewNodes, the 5th node) + the relocation: every failure index
+    for k in range(-1, 11):
+        cases.append('rel %d' % k)
     return cases
 
 
@@ -208,6 +257,11 @@ def run_hist(ctx, exes, cases):
             path = os.path.join(ctx.build, 'hist%d.cases' % part)
             open(path, 'w').write('\n'.join(rest) + '\n')
             rc, lines, err = ctx.run_lines([exe], path, timeout=1500)
+            for l in err.splitlines():
+                if l.startswith('COV\t'):
+                    f = l.split('\t')
+                    if len(f) == 3 and f[2].isdigit():
+                        COV_AGG[f[1]] = COV_AGG.get(f[1], 0) + int(f[2])
             for i, c in enumerate(rest[:len(lines)]):
                 out[c] = lines[i]
             if len(lines) >= len(rest):
@@ -250,6 +304,15 @@ def oracle(ctx, exes, monitor, scale_ps):
         for el in els:
             for p in scale_ps:
                 base.append('%s %s %d n -1' % (scn, 'ntm' if el == 'n' else 'cpo', p))
+    for scn, els, pq, pt in AUDIT:
+        for el in els:
+            for p in (pq if (ctx.quick() or WIDENED[0]) else pt):
+                base.append('%s %s %d n -1' % (scn, el, p))
+    aimed_p = AIMED_P_QUICK if ctx.quick() else AIMED_P_THOROUGH
+    for scn, els in AIMED:
+        for el in els:
+            for p in range(1, aimed_p + 1):
+                base.append('%s %s %d n -1' % (scn, 'ntm' if el == 'n' else 'cpo', p))
     res0 = run_hist(ctx, exes, base)
     cases = list(base)
     for c in base:
@@ -258,11 +321,31 @@ def oracle(ctx, exes, monitor, scale_ps):
             continue
         sa, sc, sf = int(head[3]), int(head[4]), int(head[5])
         w = c.split()
+        aimed = w[0] in AIMED_NAMES
+        if aimed and ctx.quick() and sa < 3:
+            continue
         for kind, steps in (('a', sa), ('c', sc), ('f', sf)):
             if kind == 'f' and w[0] in NO_FUNCTOR_FAILURES:
                 continue
-            for k in pick_ks(ctx, steps):
+            audit = w[0] in AUDIT_NAMES
+            if audit and '.' in w[1]:
+                # hash distributions other than identity (colliding: every insertion compares with all colliding items, logs of several
+                # 100 000 read events): allocation failures only, 6 failure points, in both tiers
+                if kind != 'a':
+                    continue
+                ks = pick_ks_small(ctx, steps, 6)
+            elif audit and (ctx.quick() or WIDENED[0]):
+                ks = pick_ks_small(ctx, steps, 6)       # quick: 6 failure points per kind (first two, last two, two random)
+            elif audit:
+                ks = pick_ks_small(ctx, steps, 12)
+            else:
+                ks = range(steps) if aimed else pick_ks(ctx, steps)
+            for k in ks:
                 cases.append('%s %s %s %s %d' % (w[0], w[1], w[2], kind, k))
+            # fault sequences (two failures in one history)
+            if not aimed and steps > 2 and (not ctx.quick() or w[0] in DOUBLE_QUICK) and '.' not in w[1]:
+                for k in pick_ks_small(ctx, steps - 2, 4 if ctx.quick() else 12):
+                    cases.append('%s %s %s %s %d' % (w[0], w[1], w[2], kind.upper(), k))
     res = run_hist(ctx, exes, [c for c in cases if c not in res0])
     res.update(res0)
     # the proved monitor on every log
@@ -273,7 +356,7 @@ def oracle(ctx, exes, monitor, scale_ps):
             for c in cases:
                 toks = res[c].split('|')[1].split('#')[0].strip() if '|' in res[c] else ''
                 f.write('mon ' + toks + '\n')
-        rc, lines, err = ctx.run_lines([monitor], path, timeout=1500)
+        rc, lines, err = ctx.run_lines(['bash', '-c', 'ulimit -s unlimited 2>/dev/null; exec "$0"', monitor], path, timeout=1500)
         for i, c in enumerate(cases):
             verdicts[c] = lines[i] if i < len(lines) else '<monitor died: %s>' % err.strip()[-200:]
     hist = {}
@@ -291,6 +374,20 @@ def oracle(ctx, exes, monitor, scale_ps):
             hist[c.split()[0]] = hist.get(c.split()[0], 0) + 1
             events += len(res[c].split('|')[1].split()) if '|' in res[c] else 0
     ctx.coverage.setdefault('input_distribution', {})['oracle_cases_per_scenario'] = hist
+    # MEASURED by the harness processes of this run (printed on their stderr at exit): cases per (scenario / element kind / failure kind),
+    # audit configurations instantiated, guarded operations executed (scenario: source text), threshold / refusal events that occurred
+    dist = ctx.coverage['input_distribution']
+    dist['measured_cases_by_scenario_element_failurekind'] = {k[5:]: v for k, v in sorted(COV_AGG.items()) if k.startswith('case:')}
+    dist['measured_configurations'] = {k[7:]: v for k, v in sorted(COV_AGG.items()) if k.startswith('config:')}
+    dist['measured_events'] = {k[6:]: v for k, v in sorted(COV_AGG.items()) if k.startswith('event:')}
+    dist['measured_operations'] = {k[3:]: v for k, v in sorted(COV_AGG.items()) if k.startswith('op:')}
+    fired_by_kind = {}
+    for c in cases:
+        head = res[c].split('|')[0].split()
+        if len(head) >= 7 and head[6] == '1':
+            key = c.split()[0] + '/' + c.split()[3]
+            fired_by_kind[key] = fired_by_kind.get(key, 0) + 1
+    dist['measured_failures_fired_by_scenario_kind'] = fired_by_kind
     ctx.coverage['input_distribution']['events_checked_by_monitor'] = events
     if monitor:
         ctx.traces_validated += len([c for c in cases if verdicts.get(c) == 'accept'])
@@ -306,7 +403,7 @@ def _tree_hash(ctx):
     for r in roots:
         for dp, dn, fn in os.walk(r):
             files += [os.path.join(dp, f) for f in fn]
-    files += [os.path.join(ctx.pdir, f) for f in ('harness.cpp', 'harness_hist.cpp')]
+    files += [os.path.join(ctx.pdir, f) for f in ('harness.cpp', 'harness_hist.cpp', 'harness_audit.inc')]
     for f in sorted(files):
         h.update(f.encode()); h.update(open(f, 'rb').read())
     return h.hexdigest()
@@ -315,7 +412,7 @@ def _tree_hash(ctx):
 def build_all(ctx):
     """builds the 4 harness binaries in parallel; a binary is reused only when the content hash of all its inputs (headers of the
     tree under test included) is unchanged, so a changed /repo always means a fresh build"""
-    jobs = [('harness.cpp', 'harness', ['-DC03_TIE_PART=1']), ('harness.cpp', 'harness2', ['-DC03_TIE_PART=2'])] + [('harness_hist.cpp', 'hist%d' % i, ['-DC03_PART=%d' % i]) for i in (1, 2, 3)]
+    jobs = [('harness.cpp', 'harness', ['-DC03_TIE_PART=1']), ('harness.cpp', 'harness2', ['-DC03_TIE_PART=2'])] + [('harness_hist.cpp', 'hist%d' % i, ['-DC03_PART=%d' % i] + (['-O0'] if i >= 4 else [])) for i in (1, 2, 3, 4, 5, 6)]
     san = '.san' if ctx.tier == 'thorough' else ''
     key = _tree_hash(ctx) + san
     stamp = os.path.join(ctx.build, 'harness.stamp' + san)
@@ -329,7 +426,7 @@ def build_all(ctx):
         res = ctx.cxx_many(jobs)
         if all(res.get(x) for x in paths):
             open(stamp, 'w').write(key)
-    exes = {i: res.get('hist%d' % i) for i in (1, 2, 3)}
+    exes = {i: res.get('hist%d' % i) for i in (1, 2, 3, 4, 5, 6)}
     exes['tie2'] = res.get('harness2')
     return res.get('harness'), exes
 
@@ -342,7 +439,7 @@ def replay(ctx, rp):
     if case.split()[0] in ('dt', 'hmm', 'dtc'):
         harness = exes.get('tie2')
     have_model = ctx.prove() and ctx.extract()
-    if case.split()[0] in ('om', 'arr', 'hs', 'ts', 'crew', 'pools', 'tsn', 'hsf', 'sa', 'sa2', 'grow', 'growa', 'pc', 'migv', 'dtc', 'dt', 'hmm'):
+    if case.split()[0] in ('om', 'arr', 'hs', 'ts', 'crew', 'pools', 'tsn', 'hsf', 'sa', 'sa2', 'grow', 'growa', 'pc', 'migv', 'dtc', 'rel', 'dt', 'hmm'):
         if harness is None or not have_model:
             print('cannot build harness/model'); return 2
         mism, _ = ctx.correspond('replay', [case], [harness], [ctx.model_exe], stage=False)
@@ -398,7 +495,7 @@ def run(ctx):
         for (i, c, a, b) in mism[:3]:
             ctx.violation('resource-machine model and implementation disagree on the event trace', {'case': c, 'impl': a, 'model': b,
                           'cmd': 'echo "%s" | build/C03/harness' % c}, found_input=True)
-        ctx.coverage.setdefault('input_distribution', {})['tie_cases'] = {k: sum(1 for c in cases if c.split()[0] == k) for k in ('om', 'arr', 'hs', 'ts', 'crew', 'pools', 'tsn', 'hsf', 'sa', 'sa2', 'grow', 'growa', 'pc', 'migv', 'dtc', 'dt', 'hmm')}
+        ctx.coverage.setdefault('input_distribution', {})['tie_cases'] = {k: sum(1 for c in cases if c.split()[0] == k) for k in ('om', 'arr', 'hs', 'ts', 'crew', 'pools', 'tsn', 'hsf', 'sa', 'sa2', 'grow', 'growa', 'pc', 'migv', 'dtc', 'rel', 'dt', 'hmm')}
         for c in cases[::max(1, len(cases) // 4)][:4]:
             ctx.add_sample(c)
     # ---- oracle / search on the real code
@@ -409,8 +506,11 @@ def run(ctx):
     saved_tier = ctx.tier
     if broke:
         ctx.tier = 'thorough'       # every k
+        WIDENED[0] = True
     bad, n = oracle(ctx, exes, ctx.model_exe if have_model else None, ps)
     ctx.tier = saved_tier
+    # (round 7) the audit's `palloc` scenarios found stdish::unsynchronized_pool_allocator::select_on_container_copy_construction() noexcept but
+    # allocating -> std::terminate on an allocation failure; fixed in /repo; the cases stay on the normal violation path (reverse patch = mutant M10)
     ctx.stage('oracle', not bad, bad[0][2] if bad else '')
     ctx.tie_obligations.append({'name': 'proved monitor accepts the event log of %d real histories' % n, 'ok': not bad})
     for (c, out, why) in bad[:3]:
